@@ -178,10 +178,11 @@ func (n *Node) applySweep(in sweepInput) (key, msg string) {
 		n.flush()
 	}
 	n.fpValid = false
-	if len(n.w.viol) > viol {
-		// a panic or another monitor fired; those are reported through the normal channel
+	if n.crashed {
+		// a panic: reported through the normal channel (C11/panic/...)
 		return "", ""
 	}
+	_ = viol // another monitor may have fired too (reported through the normal channel); the input's effect is still judged here
 	after := fingerprint(n, fpSeenSkip)
 	switch {
 	case after != before:
@@ -224,7 +225,9 @@ func (x *Explorer) sweepState(w *World, path []Event) {
 		if len(w.viol) > nv {
 			// a panic or another monitor fired on the inadmissible input: reported through the normal channel
 			x.check(w, append(append([]Event{}, path...), Event{K: "sweep", N: n.id, A: i}))
-			return
+			if key == "" {
+				return
+			}
 		}
 		if key == "" {
 			continue
